@@ -38,7 +38,9 @@ Inductive instr :=
 | IRunB (tgt : nat)               (* cur->Run(); if the callback itself calls Execute() continue, else goto tgt *)
 | IPushR (q : nat)                (* queue.push(callback (self,reg)); reg++   (Execute called from inside a callback) *)
 | ICnt                            (* cnt++ *)
-| ITimedWait (c m : nat).         (* pthread_cond_timedwait: as IWait, reg := 1 (signalled) / 0 (timed out) *)
+| ITimedWait (c m : nat)          (* pthread_cond_timedwait: as IWait, reg := 1 (signalled) / 0 (timed out) *)
+| IPoll (x q tgt : nat).          (* select()/poll() on the wake-up pipe x: blocks while x = 0; may time out (goto tgt).
+                                     q = the queue the pipe announces (used by the runner to flag a lost wake-up) *)
 
 Inductive status := NotStarted | Fresh | Ready | Asleep (c m : nat) | Woken (m : nat) | Done.
 
@@ -231,6 +233,11 @@ Definition exec_instr (s : state) (t : tid) (pick : nat) (i : instr) : option st
                   else Some (set_fault s BadUnlock)
       | None => Some (set_fault s BadUnlock)
       end
+  | IPoll x q tgt =>
+      if negb (live s x) then uaf else
+      if Nat.eqb (var s x) 0
+      then (if Nat.eqb pick 0 then None else Some (set_thr s t (with_pc th tgt)))
+      else adv s
   end.
 
 Inductive label := LStep (t : tid) (pick : nat) | LSpur (t : tid).
@@ -294,7 +301,7 @@ Qed.
    operations only, exactly as in the cooperative scheduler of the harness. *)
 Definition is_sync (i : instr) : bool :=
   match i with
-  | ILock _ | IUnlock _ | IWait _ _ | ISignal _ | IBroadcast _ | ICreateI _ | IJoinI _ | ITimedWait _ _ => true
+  | ILock _ | IUnlock _ | IWait _ _ | ISignal _ | IBroadcast _ | ICreateI _ | IJoinI _ | ITimedWait _ _ | IPoll _ _ _ => true
   | _ => false
   end.
 
@@ -307,6 +314,7 @@ Definition can_run (P : programs) (s : state) (t : tid) : bool :=
       match fetch P th with
       | ILock m => match own s m with None => true | Some _ => negb (live s m) end
       | IJoinI base => match stat (thr s (base + cnt th)) with Done => true | _ => false end
+      | IPoll x _ _ => negb (Nat.eqb (var s x) 0)
       | _ => true
       end
   | _ => false
@@ -354,11 +362,12 @@ Definition event_of (P : programs) (s : state) (t : tid) : event :=
       | ICreateI b => (t, 7, b + cnt th, 0)
       | IJoinI b => (t, 8, b + cnt th, 0)
       | ITimedWait c m => (t, 12, c, m)
+      | IPoll x _ _ => if Nat.eqb (var s x) 0 then (t, 15, 0, 0) else (t, 14, 0, 0)
       | _ => (t, 10, 0, 0)
       end
   end.
 
-Inductive outcome := Finished | Deadlock | Faulted (h : hazard) | OutOfFuel.
+Inductive outcome := Finished | Deadlock | Faulted (h : hazard) | OutOfFuel | LostWakeup.
 
 (* Scheduling points of the runner = of the cooperative scheduler in the harness: before every
    synchronisation operation, and once more right AFTER every unlock (event Y), so that another thread can run
@@ -372,6 +381,16 @@ Inductive outcome := Finished | Deadlock | Faulted (h : hazard) | OutOfFuel.
 Definition tmo_able (P : programs) (s : state) (t : tid) : bool :=
   match stat (thr s t) with
   | Asleep _ _ => match fetch P (thr s t) with ITimedWait _ _ => true | _ => false end
+  | Ready => match fetch P (thr s t) with IPoll x _ _ => Nat.eqb (var s x) 0 | _ => false end
+  | _ => false
+  end.
+(* the loop thread sleeps in poll() with an empty wake-up pipe although callbacks are queued *)
+Definition poll_lost (P : programs) (s : state) (t : tid) : bool :=
+  match stat (thr s t) with
+  | Ready => match fetch P (thr s t) with
+             | IPoll x q _ => Nat.eqb (var s x) 0 && negb (match que s q with [] => true | _ => false end)
+             | _ => false
+             end
   | _ => false
   end.
 Definition inb (t : tid) (l : list tid) : bool := existsb (Nat.eqb t) l.
@@ -400,7 +419,10 @@ Fixpoint run (P : programs) (fuel : nat) (s : state) (sched : list nat) (last : 
             let en2 := filter (tmo_able P s) (seq 0 (nthr s)) in
             match en1 ++ en2 with
             | [] => (s, rev acc, if all_done s then Finished else Deadlock)
-            | en => let n := length en in
+            | en =>
+                if (match en1 with [] => true | _ => false end) && existsb (poll_lost P s) en2
+                then (s, rev acc, LostWakeup) else
+                    let n := length en in
                     let t := if 500 <=? c
                              then (if inb last en1 then last
                                    else match en1 with
@@ -408,7 +430,7 @@ Fixpoint run (P : programs) (fuel : nat) (s : state) (sched : list nat) (last : 
                                         | _ => nth ((c - 500) mod length en1) en1 0
                                         end)
                              else nth (c mod n) en 0 in
-                    let pick := if 500 <=? c then 0 else c / n in
+                    let pick := if tmo_able P s t then 1 else if 500 <=? c then 0 else c / n in
                     if inb t yl then
                       run P f (silent P 200 s t) rest t (filter (fun u => negb (Nat.eqb u t)) yl) ((t, 11, 0, 0) :: acc)
                     else
